@@ -217,6 +217,10 @@ func (p *Program) lookupPkg(from string, name string) *types.Package {
 			return pk.Types
 		}
 	}
+	// a standard-library package whose path is the name itself
+	if pk, ok := p.ByPath[name]; ok {
+		return pk.Types
+	}
 	// fall back: unique package with that name, preferring the repo module
 	var cands []*packages.Package
 	for _, pk := range p.ByName[name] {
